@@ -7,6 +7,8 @@ import (
 	"strings"
 
 	"golang.org/x/tools/go/ssa"
+
+	"verif/engine/spec"
 )
 
 // modKey names a class of heap locations a function may write.
@@ -164,7 +166,39 @@ func (e *Engine) callWrites(c *ssa.CallCommon, ms *modset, visiting map[*ssa.Fun
 		}
 		return
 	}
+	if e.exemptFreshArgs {
+		if ct, fn := e.framedCallee(c); ct != nil {
+			e.frameAtCall(ct, c, fn, ms)
+			return
+		}
+	}
 	ms.union(e.modsetOfCallee(c, visiting))
+}
+
+// framedCallee: the callee's frame comes straight from its contract (trusted / pure / declared frame outside inference).
+func (e *Engine) framedCallee(c *ssa.CallCommon) (*spec.FuncContract, *ssa.Function) {
+	if c.IsInvoke() {
+		k := "(" + types.TypeString(unalias(c.Value.Type()), nil) + ")." + c.Method.Name()
+		if ct := e.Contracts[k]; ct != nil && (ct.HasMod || ct.Trusted || ct.Pure) {
+			return ct, nil
+		}
+		if recv := c.Method.Type().(*types.Signature).Recv(); recv != nil {
+			k2 := "(" + types.TypeString(unalias(recv.Type()), nil) + ")." + c.Method.Name()
+			if ct := e.Contracts[k2]; ct != nil && (ct.HasMod || ct.Trusted || ct.Pure) {
+				return ct, nil
+			}
+		}
+		return nil, nil
+	}
+	if fn, ok := c.Value.(*ssa.Function); ok {
+		if ct := e.Contracts[FuncKey(fn)]; ct != nil && (ct.HasMod || ct.Trusted || ct.Pure) {
+			if !ct.Trusted && !ct.Pure && len(ct.Modifies) > 0 && fn.Blocks != nil && e.inModule(fn) {
+				return nil, nil // in-module bodies: inference (which applies the same exemption inside)
+			}
+			return ct, fn
+		}
+	}
+	return nil, nil
 }
 
 func (e *Engine) modsetOfCallee(c *ssa.CallCommon, visiting map[*ssa.Function]bool) *modset {
@@ -299,6 +333,9 @@ func (e *Engine) modsetOfFunc(fn *ssa.Function, visiting map[*ssa.Function]bool)
 	}
 	visiting[fn] = true
 	ms := newModset()
+	saved := e.exemptFreshArgs
+	e.exemptFreshArgs = true
+	defer func() { e.exemptFreshArgs = saved }()
 	for _, b := range fn.Blocks {
 		for _, in := range b.Instrs {
 			e.instrWrites(in, ms)
